@@ -1188,10 +1188,12 @@ def check_forwarding(fn_paths, method, ctx):
                 for ver in (False, True, None):
                     for pres in (True, False):
                         for hs in (None, "uv_only", "without_uv_mc"):
-                            u = {"verification": ver, "presence_enabled": pres, "outcome": {"ok": [True, True]}}
-                            a = dict(base, op="trait_get_info", user=u, config={"hmac_secret": hs} if hs else {})
-                            b = dict(base, op="get_info", user=u, config={"hmac_secret": hs} if hs else {})
-                            sc2.append({"pair": [a, b]})
+                            for tr in (None, "empty", "usb"):
+                                u = {"verification": ver, "presence_enabled": pres, "outcome": {"ok": [True, True]}}
+                                cfg = dict({"hmac_secret": hs} if hs else {}, **({"transports": tr} if tr else {}))
+                                a = dict(base, op="trait_get_info", user=u, config=cfg)
+                                b = dict(base, op="get_info", user=u, config=cfg)
+                                sc2.append({"pair": [a, b]})
             else:
                 sc2 = [pair(rq) for rq in probes]
             F.append(Finding("C18", "trait.%s.result-changed" % method, "the trait method does not return the direct method's result unchanged (%s)" % tstr(ret)[:100], sc2, differ, p))
@@ -1648,6 +1650,13 @@ def check_duplicate_detection(fns):
         if "next_value" in names and ("check_is_already_set" not in names or names.index("check_is_already_set") > names.index("next_value")):
             F.append(Finding("C13", "serde_workaround.set_if_none-without-check", "set_if_none reads a value without checking for a duplicate first",
                              {"op": "cbor_duplicates"}, lambda o: bool(o["result"].get("accepted")), p))
+            continue
+        # the check's answer has to decide whether the value is read: `(discr <its result>) == 0` on the path
+        if "next_value" in names:
+            chk = [e for e in p.events if e["kind"] == "call" and e["callee"].split("::")[-1] == "check_is_already_set"][0]
+            if not any(k == tstr(("discr", chk["ret"])) and op == "==" and v == 0 for k, op, v in p.conds):
+                F.append(Finding("C13", "serde_workaround.set_if_none-ignores-check", "set_if_none reads the value on a path that does not depend on the outcome of check_is_already_set "
+                                 "(its error is dropped): a duplicated member is accepted", {"op": "cbor_duplicates"}, lambda o: bool(o["result"].get("accepted")), p))
     npaths += len(hp)
     for f in vms:
         msg = re.search(r"Result<([\w:]+),", f.sig)
@@ -1660,17 +1669,20 @@ def check_duplicate_detection(fns):
                 raise Shape("unsupported MIR in visit_map of %s: %s" % (msg, p.end[1][:120]))
             since_key = []
             last_key = None
+            last_chk = None
             for e in p.events:
                 if e["kind"] != "call":
                     continue
                 short = e["callee"].split("::")[-1]
                 if short == "next_key":
                     since_key = []
+                    last_chk = None
                     last_key = e["ret"]
                 elif short == "next_value":
                     if "IgnoredAny" in e["full"]:
                         continue
-                    if "check_is_already_set" not in since_key:
+                    heeded = last_chk is not None and any(k == tstr(("discr", last_chk)) and op == "==" and v == 0 for k, op, v in p.conds)
+                    if "check_is_already_set" not in since_key or not heeded:
                         # which key? the discriminant of the key read in this iteration
                         key = None
                         for k, op, v in p.conds:
@@ -1679,6 +1691,8 @@ def check_duplicate_detection(fns):
                         bad.add(key)
                 else:
                     since_key.append(short)
+                    if short == "check_is_already_set":
+                        last_chk = e["ret"]
         for key in sorted(bad, key=lambda x: (x is None, x)):
             F.append(Finding("C13", "visit_map.%s.key-%s.no-duplicate-check" % (msg.replace("::", "."), key),
                              "the map visitor of %s reads member %s without first checking whether it was already set: a duplicated member is accepted" % (msg, key),
